@@ -580,7 +580,8 @@ class Gen:
                     inst = set()
                     for k_ in range(1, len(tp) + 1): inst |= self.gstack.get(tuple(x for _, x in tp[:k_]), set())
                     # a uses of a grouping inside an augment of a node that came from the same grouping: finding F390 (kept to the witness)
-                    if (self.FIX["f390"] or g not in inst) and not any(n.get("mand") or n.get("setmin") for _, n in self.flat(body)):
+                    # (with F390 repaired the shape compiles, but wrongly when the target sits in a shorthand case: finding F394)
+                    if g not in inst and not any(n.get("mand") or n.get("setmin") for _, n in self.flat(body)):
                         kids.append({"k": "U", "g": g, "whens": 0, "status": 0, "iffs": [], "refines": [], "augs": []})
                     else: kids.append(self.leaf(allow_mand=False))
                 else:
@@ -752,6 +753,15 @@ def witnesses():
                              {"name": "cwp", "data": [], "augs": [{"path": [("cwo", "c2")], "whens": 1, "status": 0, "iffs": ["f2"], "kids": [U("gop")]},
                                                                   {"path": [("cwo", "op"), ("cwo", "input")], "whens": 0, "status": 0, "iffs": [], "kids": [N("leaf", "a2", mand=True)]},
                                                                   {"path": [("cwo", "c1"), ("cwo", "evt")], "whens": 0, "status": 0, "iffs": [], "kids": [N("leaf", "more")]}], "devs": []}]}))
+    # F394: `uses g` in an augment whose target is inside a SHORTHAND case of g's choice: the nested copy loses the later cases
+    g94 = [N("choice", "ch", kids=[N("container", "a", kids=[N("leaf", "x")]), N("leaf", "b"), N("case", "c", kids=[N("leaf", "y")])])]
+    out.append(("f394", {"features": [], "typedefs": [], "groupings": [("g9", g94)],
+                "mods": [{"name": "cea", "data": [N("container", "top", kids=[U("g9")])],
+                          "augs": [{"path": [("cea", "top"), ("cea", "ch"), ("cea", "a"), ("cea", "a")], "whens": 0, "status": 0, "iffs": [], "kids": [U("g9")]}], "devs": []}]}))
+    # F395: deviate add max-elements after a refine of max-elements
+    out.append(("f395", {"features": [], "typedefs": [], "groupings": [("g9", [N("leaf-list", "ll")])],
+                "mods": [{"name": "cfa", "data": [N("container", "top", kids=[U("g9", [rf(["ll"], max=3)])])], "augs": [], "devs": []},
+                         {"name": "cfb", "data": [], "augs": [], "devs": [{"path": [("cfa", "top"), ("cfa", "ll")], "deviates": [{"kind": "add", "dflts": [], "config": None, "mand": None, "min": None, "max": 5, "units": None}]}]}]}))
     # deviate not-supported on the input of an rpc: the children go, the embedded input node stays
     out.append(("dev-input", {"features": [], "typedefs": [], "groupings": [],
                 "mods": [{"name": "cda", "data": [N("action", "op", kids=[N("input", "input", kids=[N("leaf", "a"), N("leaf", "b", mand=True)]), N("output", "output", kids=[N("leaf", "r")])])], "augs": [], "devs": []},
@@ -763,9 +773,24 @@ def witnesses():
     return out
 
 
+def add_on_refined(s):
+    """the set has a `deviate add` of min/max-elements and a refine of min/max-elements (decidable over-approximation of the F395 shape)"""
+    dev = any(x["kind"] == "add" and (x["min"] is not None or x["max"] is not None) for m in s["mods"] for d in m["devs"] for x in d["deviates"])
+    if not dev:
+        return False
+    def walk(kids):
+        for c in kids:
+            if c["k"] == "U":
+                if any(r["min"] is not None or r["max"] is not None for r in c["refines"]): return True
+                if any(walk(a["kids"]) for a in c["augs"]): return True
+            elif walk(c["kids"]): return True
+        return False
+    return any(walk(b) for _, b in s["groupings"]) or any(walk(m["data"]) or any(walk(a["kids"]) for a in m["augs"]) for m in s["mods"])
+
+
 def classify_exp(component, what, case):
     """findings of the compiler core: F390 by the check's own witness comparison, F391 by the crash site"""
-    if case.get("finding_class") in ("F390", "F392", "F393"):
+    if case.get("finding_class") in ("F390", "F392", "F393", "F394", "F395"):
         return case["finding_class"]
     if case.get("crash") and component == "compile":
         m = re.search(r"schema_compile_node\.c:(\d+):", what)
@@ -874,12 +899,26 @@ def run_exp(cx):
                     cx.fail("compile", "non-presence container keeps LYS_MAND_TRUE although none of its (remaining) children is mandatory: the mandatory child was removed as disabled (if-feature / not-supported) without lys_compile_mandatory_parents(parent, 0)",
                             {"units": render(s), "container": t[0], "finding_class": "F392"})
                     break
+    plan_by = {x[0]: x for x in plan}
     for hid in sorted(hmeta, key=int):
         nm, tag, rend, o, ex, mid, s = hmeta[hid]
         a = ri.get(hid, ["err", "NoReply"])
         b = rm.get(mid, ["err", "NoReply"])
-        if nm in SPLIT and rend == "flattened":
-            b = rm.get([x for x in plan if x[0] == nm][0][5], ["err", "NoReply"])     # the model's compile of the expansion
+        if rend == "flattened":
+            b = rm.get(plan_by[nm][5], ["err", "NoReply"])     # the model's compile of the expansion (same load order)
+            if a[:2] == ["err", "Fail"] and b[0] == "ok" and add_on_refined(plan_by[nm][1]):
+                # `deviate add min/max-elements` of a property a refine has set: accepted on the structured set (a refine does not set
+                # LYS_SET_MIN / LYS_SET_MAX), rejected on the expanded text where the property is an ordinary statement (finding F395)
+                cx.dist["c11exp:flattened-not-compared:deviate-add-of-a-refined-property"] += 1
+                st_ok = [ri.get(h2, ["err"])[0] == "ok" for h2, m2 in hmeta.items() if m2[0] == nm and m2[2] == "structured"]
+                if st_ok and all(st_ok):
+                    cx.fail("compile", "deviate add of min/max-elements is accepted although a refine has already set the property (the expanded module is rejected)",
+                            {"units": render(plan_by[nm][1]), "finding_class": "F395"})
+                continue
+        if nm == "f394" and rend == "structured" and a[0] == "ok" and b[0] == "ok" and a != b and set(a) < set(b):
+            cx.fail("compile", "nested instantiation of a grouping from an augment applied inside a shorthand case of the same grouping loses the later cases of the choice",
+                    {"units": render(s), "missing": sorted(set(b) - set(a)), "finding_class": "F394"})
+            continue
         verdict = a[0] if a[0] == "ok" else " ".join(a[:2])
         cx.count((nm, rend, o, ex), True, "c11exp:%s:%s:%s" % (rend, tag.split(":")[0], verdict))
         if a[:2] == ["err", "Crash"] or a[:2] == ["err", "Timeout"]:
@@ -900,7 +939,11 @@ def run_exp(cx):
     for nm, s, tag, names, ids, fid, eid in plan:
         a, b = rm.get(ids[0][1], ["err", "NoReply"]), rm.get(fid, ["err", "NoReply"])
         cx.count((nm, "cflat"), True, "c11exp:model-expand-law:" + (a[0] if a[0] == "ok" else " ".join(a[:2])))
-        if a != b and nm not in split_seen:
+        if a != b and sorted(a) == sorted(b):
+            # same nodes, other sibling order: the expansion changes the order in which pending augments are consumed, and with
+            # ly_set_rm (finding F81) that order decides the sibling order of one module's augments
+            cx.dist["c11exp:model-expand-law:same-nodes-other-sibling-order-(F81)"] += 1
+        elif a != b and nm not in split_seen and nm != "f394":
             cx.disagree("compile", mlines[int(fid)][:3000] + "  ## model law compile = compile . expand", a, b)
         for o, mid in ids:
             if rm.get(mid, ["err"])[:2] == ["err", "Fuel"]:
